@@ -248,6 +248,13 @@ TrDraws ==
              <<"C15.byteVaries", ByteVaries(four, MinDistinct(n))>>,
              <<"C15.bitVaries", BitVaries(four)>>,
              <<"C15.noInternalCopy", NoInternalCopy(four)>>,
+             \* consecutive challenges of ONE server object are unrelated: their XOR is as random as a draw
+             <<"C15.refreshUnrelated",
+                  LET deltas == [k \in 1..(2 * n) |->
+                                   LET a == four[4 * ((k - 1) \div 2) + (IF k % 2 = 1 THEN 1 ELSE 3)]
+                                       c == four[4 * ((k - 1) \div 2) + (IF k % 2 = 1 THEN 3 ELSE 4)]
+                                   IN [i \in 1..16 |-> a[i] ^^ c[i]]]
+                  IN NoInternalCopy(deltas) /\ ByteVaries(deltas, MinDistinct(n)) /\ BitVaries(deltas)>>,
              <<"C15.usedIsDrawn", hooked = per * n =>
                   \A k \in 1..n : \A j \in 1..4 :
                       /\ four[4 * (k - 1) + j] = e.used[per * (k - 1) + 3 + j]
